@@ -9,7 +9,7 @@ package cmd
 // generated container (internal/gontainer) then wires from those parameters is assumed (contracts/assumed/container.spec)
 // and evaluated by the composition test.
 //@ func buildRunner effect
-//@   property C12 C10 C16 C09 C18 C06 C05 C07
+//@   property C12 C10 C16 C09 C18 C06 C05 C07 C02 C03 C04 C08 C11 C13 C14 C15
 //@   ensures [steps_wired] result != nil && (forall j int :: 0 <= j && j < len(result.steps) ==> result.steps[j] != nil)
 //@   ensures [patterns_reach_the_container_in_flag_order] exists k int :: old(tlen()) <= k && k < tlen() && evIs(k, "github.com/gontainer/gontainer-helpers/v3/container.(*Container).OverrideParam") && evS1(k) == "inputPatterns"
 //@        && evArg(k, container.Dependency) == container.NewDependencyValue(p.inputPatterns)
